@@ -19,7 +19,7 @@ MANIFEST = {
             "block heights, weights, per-validator info, parameter keys and flags with the model evaluated inside Coq.",
     "note": "Trusted: Coq kernel + vm_compute; fidelity of the hand-written model as sampled by the correspondence; Go harness and "
             "verif hook VerifC02DumpVotes; heights modelled as unbounded N (chains below 2^32-1); the certified height is taken "
-            "from the header's aggregate commit without checking it (that is C06). Generator keys store not modelled.",
+            "from the header's aggregate commit without checking it (that is C06). validatorsHash not modelled.",
 }
 IMPORTS = "From LE Require Import BFT.Contradiction BFT.Votes BFT.GenKeys Corr.C02."
 
